@@ -79,6 +79,15 @@ IsCanonN(net, s) == \A a, b \in DOMAIN s : a < b => BeforeN(net, s[a], s[b])
 SlicedAfterRemoveN(net, s, ix, v) == InsertCanonN(net, s, [ind |-> ix, project |-> v])
 SlicedAfterRestore(s, ix)         == SelectSeq(s, LAMBDA e : e.ind # ix)
 
+(* cost of slicing the set S of indices on top of the already sliced set Sl0 (C07):
+   largest intermediate, flops of ONE slice, number of additional slices *)
+FlopsOne(net, ch, Sl) == SumOver(DOMAIN ch, LAMBDA p : NodeFlops(net, ch, Sl, p))
+SizeMax(net, ch, Sl)  == MaxSet({Size(net, p, Sl) : p \in DOMAIN ch})
+CostOfN(net, ch, Sl0, S) ==
+    [size |-> SizeMax(net, ch, Sl0 \cup S), flops |-> FlopsOne(net, ch, Sl0 \cup S), nslices |-> Prod(net, S)]
+(* overhead target <<num, den>>: total flops of all slices at most num/den of the unsliced flops f0 *)
+OverOKN(c, f0, tov) == tov = <<0, 0>> \/ c.nslices * c.flops * tov[2] <= tov[1] * f0
+
 (* slice -> fix map for value semantics: projected indices are held fixed *)
 ProjFix(sliced) ==
     LET P == {k \in DOMAIN sliced : sliced[k].project # -1}
